@@ -444,6 +444,8 @@ def run(ctx):
     C06.version_change_rules(ctx, "R-C05.7")
 
     # ---- borrowed obligations (mechanisms owned by other properties that this property's verdict also rests on)
+    # a snapshot opened while a batch is being applied must not be handed an instant past the batch
+    ctx.borrow("C06", ["R-C06.11"], "R-C05.10")
     # a view's instant covers nothing that is still to be written: publish uses the drawn seqno, views take the visible counter
     ctx.borrow("C06", ["R-C06.1", "R-C06.2", "R-C06.3", "R-C06.4"], "R-C05.8")
     # the meta keyspace publishes exactly what it drew
